@@ -17,5 +17,6 @@ CONSTANTS
   FailOdds = 5
   EndOdds = 2
   Weights <- WNF
+  Scripts <- NoScripts
 INVARIANT Emit
 CHECK_DEADLOCK FALSE
